@@ -13,6 +13,7 @@ def main():
     a = ap.parse_args()
     seed = int(os.environ.get('VERIF_SEED', '0'))
     try:
+        import pyrates  # noqa: imported once here; every case runs in a fork of this process
         mod = importlib.import_module(f'harness.props.{a.pid.lower()}')
         from .core import Ctx
         ctx = Ctx(a.pid, a.tier, seed)
